@@ -12,6 +12,11 @@ CLAIMED = {
           "Every reachable order-tracking state for 2-3 concurrent client order ids (all 10 exchange-consistent fill timelines per id) is enumerated to fixpoint, on the Orders table directly and through EngineState::update_from_account / the in-flight recorder over 3 instruments on 2 exchanges; every transition executes the real code and is compared with the allowed-successor set the statement gives for (tracked state, input); all inputs (duplicates, stale, out-of-order, full snapshots) are offered in every state.",
           "Unique client order ids; exchange reports of one order follow a timeline with non-decreasing fill level (late/duplicate/out-of-order delivery unrestricted); timestamps in {1,2,3}, fill levels in {0, half, full}.",
           "DESIGN.md §3 C01"),
+  "C09": ("model_checking", "E-BFS",
+          "explicit-state BFS to fixpoint over the real EngineState::update_from_account / update_from_market",
+          "All reachable (held value, greatest-delivered-timestamp monitor) states of balances, open-order details, top of book and last traded price are enumerated to fixpoint for several item groupings (two exchanges, two instruments); every transition delivers one timestamped message (or a full account snapshot, or a cancel-in-flight mark) to the real engine state; after every step each held item must carry the greatest timestamp delivered so far with a value delivered with it, and unnamed items must be bit-identical.",
+          "Timestamps in {1,2,3}, two values per item; L1 events carry last_update_time == time_exchange; order reports keep remaining quantity > 0 (terminal reports are C01's).",
+          "DESIGN.md §3 C09"),
   "C14": ("model_checking", "E-BFS",
           "explicit-state BFS to fixpoint over the real Engine::process",
           "All reachable connectivity states for 1, 2 and 3 exchanges are enumerated to fixpoint; every transition is an execution of the real Engine::process compared with the statement's flag model (global iff all links healthy, exactly the addressed link flips, on_disconnect exactly once per notice, audit output).",
